@@ -252,7 +252,7 @@ def line_bounds(t, cur):
     return a, (len(t) if e < 0 else e)
 
 
-def oracle_op(t, cur, op, res, d):
+def _oracle_op(t, cur, op, res, d):
     """None or (clause, family).  `d` is a Document(t, cur) for follow-up queries."""
     k = op[0]
     n = len(t)
@@ -260,9 +260,7 @@ def oracle_op(t, cur, op, res, d):
     if res[0] == 98:
         return (name + " did not terminate", "hang")
     if res[0] != 0:
-        if k in (6, 7, 27, 28) and res[0] == 1 and op[1] < 1:
-            return None        # documented assert count >= 1
-        return (name + " raised", "raise")
+        return (name + " raised", "raise")       # no query of Document may raise for a valid document
     v = res[1]
     a, e = line_bounds(t, cur)
     lines = t.split("\n")
@@ -333,7 +331,9 @@ def oracle_op(t, cur, op, res, d):
         bad = bounds(v)
         if bad:
             return bad
-        trow = max(0, row - c) if k == 6 else min(len(lines) - 1, row + c)
+        # a negative count is the opposite motion (fix 46fed32)
+        up = (k == 6) == (c >= 0)
+        trow = max(0, row - abs(c)) if up else min(len(lines) - 1, row + abs(c))
         want = col if pc is None else pc
         tcol = max(0, min(want, len(lines[trow])))
         tgt = cur + v
@@ -362,6 +362,8 @@ def oracle_op(t, cur, op, res, d):
         if bad:
             return bad
         tgt = cur + v
+        if fam == "blank-line":
+            return None        # nothing to land on: staying on the line is all the property asks
         if is_blank(t[tgt:tgt + 1] or " ") or t[tgt + 1:e].strip() != "":
             return ("last_non_blank_of_current_line_position: target is not the last non-blank character of the line", fam)
         return None
@@ -534,6 +536,17 @@ def oracle_op(t, cur, op, res, d):
     return None
 
 
+def oracle_op(t, cur, op, res, d):
+    """The oracle must never crash on an answer it did not expect: an answer it
+    cannot even interpret (wrong shape, target outside every table it indexes)
+    is reported as a violation with the input."""
+    try:
+        return _oracle_op(t, cur, op, res, d)
+    except Exception as e:  # noqa
+        return ("%s: the answer %r cannot be interpreted by the oracle (%s: %s)" % (
+            OPNAMES.get(op[0], "?"), res, type(e).__name__, e), "uninterpretable")
+
+
 # --------------------------------------------------------------------------
 # generators
 
@@ -557,7 +570,7 @@ def ops_for(t, cur, full=True):
             ops.append([3, r, c])
     for c in (-2, -1, 0, 1, 2, 3, 7):
         ops += [[4, c], [5, c]]
-    for c in (0, 1, 2, 3):
+    for c in (-2, -1, 0, 1, 2, 3):
         for pc in ([], [0], [1], [2], [5], [-1]):
             ops += [[6, c, pc], [7, c, pc]]
     ops += [[8, 0], [8, 1], [9], [10], [12], [13]]
